@@ -6,6 +6,7 @@ package p13
 import (
 	"encoding/json"
 	"fmt"
+	"os"
 	"sort"
 	"strings"
 	"time"
@@ -198,11 +199,23 @@ func Run(c *run.Ctx) {
 		c.End()
 		return
 	}
-	pinned(c)
-	sets(c)
-	axioms(c)
-	aggs(c)
-	clis(c)
+	only := os.Getenv("VERIF_C13_ONLY") // debugging aid: run one case kind (pinned|set|axiom|agg|cli)
+	on := func(k string) bool { return only == "" || only == k }
+	if on("pinned") {
+		pinned(c)
+	}
+	if on("set") {
+		sets(c)
+	}
+	if on("axiom") {
+		axioms(c)
+	}
+	if on("agg") {
+		aggs(c)
+	}
+	if on("cli") {
+		clis(c)
+	}
 }
 
 func runCase(c *run.Ctx, cs *Case) {
